@@ -92,6 +92,7 @@ type TraceWriter struct {
 	f      *os.File
 	w      *bufio.Writer
 	n      int
+	bytes  int64
 	path   string
 	counts map[string]int
 }
@@ -119,6 +120,7 @@ func (tw *TraceWriter) Emit(m map[string]any) {
 	tw.w.Write(b)
 	tw.w.WriteByte('\n')
 	tw.n++
+	tw.bytes += int64(len(b)) + 1
 	tw.counts[m["ev"].(string)]++
 }
 
